@@ -650,7 +650,7 @@ func (cs *c04Case) build(r *Result, judgeAdd bool) *c04Run {
 func (cs *c04Case) ask(im c04Impl, q c04Query) ([]bgzf.Chunk, error, bool) {
 	var ans []bgzf.Chunk
 	var err error
-	if cs.Kind == "csi" && (q.End <= 0 || q.End > 1<<40 || q.Beg < 0) {
+	if cs.Kind == "csi" && (q.End <= 0 || q.Beg < 0 || q.End > c04CsiLimit(cs)+2) {
 		if ok, _ := c04CsiAnyQuerySafe(); !ok {
 			return nil, errors.New("not called: csi.reg2bins does not return for such queries"), false
 		}
@@ -1340,6 +1340,21 @@ var c04CsiSafe struct {
 	once sync.Once
 	ok   bool
 	bad  string
+}
+
+// c04CsiLimit is the end of the indexable range of a csi case (csi.New's defaults for 0)
+func c04CsiLimit(cs *c04Case) int {
+	ms, d := cs.MinShift, cs.Depth
+	if ms == 0 {
+		ms = 14
+	}
+	if d == 0 {
+		d = 5
+	}
+	if ms+3*d >= 62 {
+		return 1 << 62
+	}
+	return 1 << uint(ms+3*d)
 }
 
 func c04CsiAnyQuerySafe() (bool, string) {
